@@ -5,6 +5,8 @@ package main
 
 import (
 	"fmt"
+	"github.com/deadsy/sdfx/vec/v2i"
+	"github.com/deadsy/sdfx/vec/v3i"
 	"math"
 	"runtime"
 	"sync"
@@ -110,6 +112,55 @@ func shardC10(c *Ctx, shard, nshards int) {
 			}
 			run(c10Job{fmt.Sprintf("Union3D[%d different operands]", k), nil, sdf.Union3D(ops...)}, false)
 		}
+	}
+	// every blend function the library offers, installed on unions / arrays / rotate-unions / differences / intersections of
+	// parts from a tenth of a unit to hundreds of units (ExpMin leaves its representable range about 745/k from the surfaces)
+	for i := 0; i < c.Pick(30, 300); i++ {
+		if !mine() {
+			continue
+		}
+		r := c.Rng("blendfn", i)
+		scale := pickOne(r, []float64{0.1, 1, 10, 100, 300})
+		k := pickOne(r, []float64{0.05, 0.3, 1, 8, 32})
+		fname := []string{"PolyMin", "RoundMin", "ChamferMin", "ExpMin", "PowMin"}[i%5]
+		mk := map[string]func() sdf.MinFunc{
+			"PolyMin": func() sdf.MinFunc { return sdf.PolyMin(k * scale * 0.1) }, "RoundMin": func() sdf.MinFunc { return sdf.RoundMin(k * scale * 0.1) },
+			"ChamferMin": func() sdf.MinFunc { return sdf.ChamferMin(k * scale * 0.1) }, "ExpMin": func() sdf.MinFunc { return sdf.ExpMin(k) }, "PowMin": func() sdf.MinFunc { return sdf.PowMin(k) }}[fname]
+		a, b := leaf3(r, scale), leaf3(r, scale)
+		bt := sdf.Transform3D(b.s3, sdf.Translate3d(v3.Vec{X: scale * r.R(0.3, 1.5), Y: scale * r.R(-1, 1)}))
+		var s3 sdf.SDF3
+		var s2 sdf.SDF2
+		var kind string
+		switch (i / 5) % 6 {
+		case 0:
+			u := sdf.Union3D(a.s3, bt).(*sdf.UnionSDF3)
+			u.SetMin(mk())
+			s3, kind = u, "Union3D"
+		case 1:
+			u := sdf.Array3D(a.s3, v3i.Vec{X: 3, Y: 2, Z: 1}, v3.Vec{X: scale * 1.3, Y: scale * 1.1, Z: scale}).(*sdf.ArraySDF3)
+			u.SetMin(mk())
+			s3, kind = u, "Array3D"
+		case 2:
+			u := sdf.RotateUnion3D(sdf.Transform3D(a.s3, sdf.Translate3d(v3.Vec{X: scale})), 5, sdf.RotateZ(1.1)).(*sdf.RotateUnionSDF3)
+			u.SetMin(mk())
+			s3, kind = u, "RotateUnion3D"
+		case 3:
+			a2, b2 := leaf2(r, scale), leaf2(r, scale)
+			u := sdf.Union2D(a2.s2, sdf.Transform2D(b2.s2, sdf.Translate2d(v2.Vec{X: scale * r.R(0.3, 1.5)}))).(*sdf.UnionSDF2)
+			u.SetMin(mk())
+			s2, kind = u, "Union2D"
+		case 4:
+			a2 := leaf2(r, scale)
+			u := sdf.Array2D(a2.s2, v2i.Vec{X: 3, Y: 3}, v2.Vec{X: scale * 1.3, Y: scale * 1.2}).(*sdf.ArraySDF2)
+			u.SetMin(mk())
+			s2, kind = u, "Array2D"
+		default:
+			a2 := leaf2(r, scale)
+			u := sdf.RotateUnion2D(sdf.Transform2D(a2.s2, sdf.Translate2d(v2.Vec{X: scale})), 6, sdf.Rotate2d(0.9)).(*sdf.RotateUnionSDF2)
+			u.SetMin(mk())
+			s2, kind = u, "RotateUnion2D"
+		}
+		run(c10Job{fmt.Sprintf("%s+%s(k=%g) of parts of size %g (%s ...)", kind, fname, k, scale, a.desc), s2, s3}, false)
 	}
 	// shared sub-expressions: one cached profile object used twice in a model, once directly and once through a second
 	// Cache2D around it (a helper that caches whatever it is given)
